@@ -416,7 +416,10 @@ def derivs_run(case, ctx):
         e = ["par", e[1], ["any"]]          # a, *   (terminal, outside brackets)
     spellings = [render(e, {"sp": "", "brackets": False}), render(e, {"sp": " ", "brackets": False}),
                  render(e, {"sp": "\t ", "brackets": False}), render(e, {"sp": "", "brackets": True}),
-                 render(e, {"sp": " ", "brackets": True})]
+                 render(e, {"sp": " ", "brackets": True}),
+                 # every character of the grammar's white space class (space, tab, form feed, CR, LF), alone and in runs
+                 render(e, {"sp": "\f", "brackets": False}), render(e, {"sp": "\r\n", "brackets": False}),
+                 render(e, {"sp": " \n\f\t", "brackets": True})]
     want = prefixes(denote(e, True))
     if depth(e) >= 2 or "[" in spellings[0]:
         ctx.nontrivial()
@@ -492,11 +495,11 @@ def derivs_run(case, ctx):
 
 
 # ----------------------------------------------------------------------------- stage fuzz (thorough): atheris on the parser
-FUZZ_ALPH = ["a", "b", "items", "+", "*", ".", ":", ",", "[", "]", " ", "1", "_", "i", "\u00e9", "\t"]
+FUZZ_ALPH = ["a", "b", "items", "+", "*", ".", ":", ",", "[", "]", " ", "1", "_", "i", "\u00e9", "\t", "\f", "\n", "\r"]
 
 
 def fuzz_decode(data):
-    return "".join(FUZZ_ALPH[b % 16] for b in bytes(data)[:24])
+    return "".join(FUZZ_ALPH[b % len(FUZZ_ALPH)] for b in bytes(data)[:24])
 
 
 def fuzz_target(data, ctx):
